@@ -12,7 +12,8 @@ RULE = ("the table {registered prefix} x {registered unit} x {exponent -4..4} is
         "prefixes are created first through one of nine routes chosen at random and then reached through all others; "
         "distinct = (prefix or prefix expression, unit, exponent); non-trivial = the prefix is not the identity"
         " The table also multiplies Decimal and very large magnitudes, and re-checks the identity after augmented assignments on returned quantities."
-        " Decimal readings nobody used before are first touched (stripped, compared, converted, hashed) under a 5-9 digit decimal context and then used under the default one.")
+        " Decimal readings nobody used before are first touched (stripped, compared, converted, hashed) under a 5-9 digit decimal context and then used under the default one."
+        " Plus roots of quantities whose prefix sits outside the power, and exact big-integer identities on new units after mixed-base arithmetic that lands on a registered prefix.")
 ASSUMPTIONS = [
     "prefix values are exact Fractions computed from the base/exponent fields, not from Prefix.quantify()",
     "identity (is) is demanded where all prefixes share a base; 1e-9 relative numeric agreement otherwise",
